@@ -1597,6 +1597,8 @@ class Evaluator:
         if isinstance(fn, ClassV):
             return self.construct(fn.ci, args, kwargs, fr, node)
         if isinstance(fn, ExtV):
+            if fn.dotted in self.overrides:
+                return self.overrides[fn.dotted](self, args, kwargs, node, fr, fn)
             return self.ext.call_ext(self, fn, args, kwargs, fr, node)
         if isinstance(fn, BoundBuiltin):
             return self.ext.call_method(self, fn.recv, fn.name, args, kwargs, fr, node)
